@@ -365,6 +365,8 @@ NUMBA_THEOREMS = {'nb_add_eq', 'nb_sub_eq', 'nb_mul_eq', 'nb_xor_eq', 'nb_or_eq'
 
 SERIES_THEOREMS = {'series_sin_eq', 'series_sinh_eq', 'series_cos_eq', 'series_cosh_eq'}
 
+PARSER_THEOREMS = {'parser_step_eq'}
+
 TRANSLATORS = [   # (script, theorems it generates (None = everything else), modules its output imports)
     ('py2lean.py', None, ['Model', 'Proofs.Rev', 'Proofs.Invol']),
     ('mv2lean.py', MV_THEOREMS, ['Proofs.Conf2', 'Proofs.CgaObj', 'Proofs.Classify']),
@@ -375,6 +377,7 @@ TRANSLATORS = [   # (script, theorems it generates (None = everything else), mod
     ('layout2lean.py', LAY_THEOREMS, ['Model']),
     ('numba2lean.py', NUMBA_THEOREMS, ['Model']),
     ('series2lean.py', SERIES_THEOREMS, ['Model']),
+    ('parser2lean.py', PARSER_THEOREMS, ['Model']),
 ]
 
 
